@@ -3,7 +3,7 @@ import ast
 
 from engine.astutil import U, calls, kwargs, single_defs, inline, walk_own, call_name, attr_tail, returns, enclosing_map, arg
 from engine.cfg import CFG
-from engine.norm import Norm
+from engine.norm import Norm, parse_expr
 from . import common
 
 EXPLANATION = (
@@ -309,74 +309,104 @@ def r4(ctx):
 
 
 def r5(ctx):
+    """the two plate counts in the metadata are #(observed plates) and #(unobserved plates): each JSON value is evaluated to a
+    linear form over {observed, unobserved} plate counts, whatever idiom computes it (loop counters, sum/len of
+    comprehensions, differences)"""
+    from engine import builders as B
+    from engine.repo import AnalysisError
     f = ctx.fn("cli.extract_screen_metadata.main")
-    loops = [n for n in walk_own(f.node) if isinstance(n, ast.For) and isinstance(n.iter, ast.Attribute) and n.iter.attr == "plates"]
-    if not loops:
-        return r5_comprehension_idiom(ctx, f)
-    ctx.need(len(loops) == 1, "extract_screen_metadata.main: loop over .plates not found")
-    loop = loops[0]
-    pv = loop.target.id
-    ok = False
-    obs_c = unobs_c = None
-    if len(loop.body) == 1 and isinstance(loop.body[0], ast.If):
-        iff = loop.body[0]
-        t = iff.test
-        neg = isinstance(t, ast.UnaryOp) and isinstance(t.op, ast.Not)
-        core = t.operand if neg else t
-        if U(core) == f"{pv}.is_observed" and len(iff.body) == 1 and len(iff.orelse) == 1:
-            a, b = iff.body[0], iff.orelse[0]
-            if all(isinstance(x, ast.AugAssign) and isinstance(x.op, ast.Add) and isinstance(x.value, ast.Constant) and x.value.value == 1
-                   and isinstance(x.target, ast.Name) for x in (a, b)) and a.target.id != b.target.id:
-                obs_c, unobs_c = (b.target.id, a.target.id) if neg else (a.target.id, b.target.id)
-                ok = True
-    ctx.check("R5", f"{f.site()}::one-counter-per-plate", ok, "each plate increments exactly one of two counters chosen by is_observed",
-              "the per-plate loop does not increment exactly one of two counters by 1 depending on plate.is_observed")
-    if not ok:
-        return
-    inits = {n.targets[0].id: U(n.value) for n in walk_own(f.node) if isinstance(n, ast.Assign) and isinstance(n.targets[0], ast.Name)
-             and n.targets[0].id in (obs_c, unobs_c)}
-    ctx.check("R5", f"{f.site()}::counters-start-at-zero", inits == {obs_c: "0", unobs_c: "0"}, "both counters start at 0",
-              f"counter initial values {inits}")
-    d = [n for n in walk_own(f.node) if isinstance(n, ast.Dict)]
-    wired = {}
-    for dd in d:
-        for k, v in zip(dd.keys, dd.values):
-            if isinstance(k, ast.Constant):
-                wired[k.value] = U(v)
-    ctx.check("R5", f"{f.site()}::json-wiring", wired.get("n_unobserved_plates") == unobs_c and wired.get("n_observed_plates") == obs_c,
-              "JSON keys carry the matching counters",
-              f"n_unobserved_plates={wired.get('n_unobserved_plates')}, n_observed_plates={wired.get('n_observed_plates')} "
-              f"(unobserved counter is `{unobs_c}`)")
+    d = [n for n in walk_own(f.node) if isinstance(n, ast.Dict) and any(isinstance(k, ast.Constant) and k.value == "n_unobserved_plates" for k in n.keys)]
+    ctx.need(len(d) == 1, f"{f.site()}: the metadata dict with n_unobserved_plates not found")
+    wired = {k.value: v for k, v in zip(d[0].keys, d[0].values) if isinstance(k, ast.Constant)}
+    par = enclosing_map(f.node)
+    top_stmt = d[0]
+    while par.get(top_stmt) is not None and par.get(top_stmt) is not f.node:
+        top_stmt = par[top_stmt]
+    top = list(f.node.body)
+    idx = top.index(top_stmt)
+    pre = ast.FunctionDef(name="_pre", args=f.node.args, decorator_list=[], lineno=0, col_offset=0,
+                          body=top[:idx] + [ast.Return(value=ast.Tuple(elts=[wired.get("n_observed_plates", ast.Constant(value=None)), wired["n_unobserved_plates"]], ctx=ast.Load()))])
+    try:
+        ps = B.paths(pre)
+    except B.Unsupported as e:
+        raise AnalysisError(f"{f.site()}: {e} - the plate counts are computed outside the recognised counting idioms")
+    ctx.need(len(ps) == 1 and isinstance(ps[0][1], ast.Tuple), f"{f.site()}: the statements before the metadata dict are not a straight line")
+    env = ps[0][2]
+    N = Norm(strict=False)
 
+    def cls_of(conds, pv):
+        """'obs' | 'unobs' | 'all' | 'none' for a conjunction of tests over plate variable pv; None if not recognised"""
+        want_o = N.b(parse_expr(f"{pv}.is_observed"))
+        want_u = N.b(parse_expr(f"not {pv}.is_observed"))
+        got = set()
+        for c in conds:
+            if isinstance(c, ast.Call) and U(c.func) in ("bool", "int") and len(c.args) == 1:
+                c = c.args[0]
+            b = N.b(c)
+            if b == want_o:
+                got.add("obs")
+            elif b == want_u:
+                got.add("unobs")
+            else:
+                return None
+        if not got:
+            return "all"
+        return got.pop() if len(got) == 1 else "none"
 
-def r5_comprehension_idiom(ctx, f):
-    """counts written as sum(1 for p in X.plates if [not] p.is_observed) / len([...])"""
-    counts = {}
-    for n in walk_own(f.node):
-        if isinstance(n, ast.Assign) and len(n.targets) == 1 and isinstance(n.targets[0], ast.Name) and isinstance(n.value, ast.Call) and call_name(n.value) in ("sum", "len") and n.value.args:
-            comp = n.value.args[0]
-            if isinstance(comp, (ast.GeneratorExp, ast.ListComp)) and len(comp.generators) == 1 and isinstance(comp.generators[0].iter, ast.Attribute) \
-                    and comp.generators[0].iter.attr == "plates" and len(comp.generators[0].ifs) == 1:
-                pv = U(comp.generators[0].target)
-                t = comp.generators[0].ifs[0]
-                neg = isinstance(t, ast.UnaryOp) and isinstance(t.op, ast.Not)
-                core = t.operand if neg else t
-                unit = call_name(n.value) == "len" or U(comp.elt) == "1"
-                if U(core) == f"{pv}.is_observed" and unit:
-                    counts["unobs" if neg else "obs"] = n.targets[0].id
-    if set(counts) != {"obs", "unobs"}:
-        from engine.repo import AnalysisError
-        raise AnalysisError(f"{f.site()}: plate counting is neither the per-plate loop nor the comprehension idiom")
-    ctx.ok("R5", f"{f.site()}::one-counter-per-plate", "observed / unobserved plates counted by complementary filters over all plates")
-    ctx.ok("R5", f"{f.site()}::counters-start-at-zero", "comprehension counts start at zero by construction")
-    d = [n for n in walk_own(f.node) if isinstance(n, ast.Dict)]
-    wired = {}
-    for dd in d:
-        for k, v in zip(dd.keys, dd.values):
-            if isinstance(k, ast.Constant):
-                wired[k.value] = U(v)
-    ctx.check("R5", f"{f.site()}::json-wiring", wired.get("n_unobserved_plates") == counts["unobs"] and wired.get("n_observed_plates") == counts["obs"],
-              "JSON keys carry the matching counters", f"n_unobserved_plates={wired.get('n_unobserved_plates')}, n_observed_plates={wired.get('n_observed_plates')}")
+    def plates_comp(g):
+        g = B.resolve(g, env)
+        if isinstance(g, (ast.GeneratorExp, ast.ListComp)) and len(g.generators) == 1 and isinstance(g.generators[0].target, ast.Name) \
+                and isinstance(g.generators[0].iter, ast.Attribute) and g.generators[0].iter.attr == "plates":
+            return g.generators[0].target.id, g.generators[0].ifs, g.elt
+        return None
+
+    def form(e, depth=0):
+        """{'obs': a, 'unobs': b} or None"""
+        if depth > 10:
+            return None
+        e = B.resolve(e, env)
+        if isinstance(e, ast.BinOp) and isinstance(e.op, (ast.Add, ast.Sub)):
+            l, r = form(e.left, depth + 1), form(e.right, depth + 1)
+            if l is None or r is None:
+                return None
+            sg = 1 if isinstance(e.op, ast.Add) else -1
+            return {k: l[k] + sg * r[k] for k in ("obs", "unobs")}
+        if isinstance(e, ast.Constant) and e.value == 0:
+            return {"obs": 0, "unobs": 0}
+        if isinstance(e, ast.Call) and U(e.func) == "int" and len(e.args) == 1:
+            return form(e.args[0], depth + 1)
+        if isinstance(e, ast.Call) and U(e.func) in ("sum", "len") and len(e.args) == 1 and not e.keywords:
+            a = B.resolve(e.args[0], env)
+            if U(e.func) == "len" and isinstance(a, ast.Attribute) and a.attr == "plates":
+                return {"obs": 1, "unobs": 1}
+            pc = plates_comp(a)
+            if pc is None:
+                return None
+            pv, ifs, elt = pc
+            c = cls_of(ifs, pv)
+            if c is None:
+                return None
+            if U(e.func) == "sum":
+                if isinstance(elt, ast.Constant) and elt.value in (1, True):
+                    c2 = "all"
+                else:
+                    c2 = cls_of([elt], pv)          # summing booleans counts the true ones
+                    if c2 is None:
+                        return None
+                both = {c, c2} - {"all"}
+                c = "all" if not both else (both.pop() if len(both) == 1 else "none")
+            return {"obs": 1 if c in ("obs", "all") else 0, "unobs": 1 if c in ("unobs", "all") else 0}
+        return None
+    fo, fu = form(ps[0][1].elts[0]), form(ps[0][1].elts[1])
+    if fo is None or fu is None:
+        raise AnalysisError(f"{f.site()}: plate counting `{B.text(B.resolve(ps[0][1].elts[1], env))[:100]}` is not in a recognised counting idiom")
+    ctx.check("R5", f"{f.site()}::one-counter-per-plate", fo["obs"] + fu["obs"] == 1 and fo["unobs"] + fu["unobs"] == 1 and all(v in (0, 1) for v in list(fo.values()) + list(fu.values())),
+              "every plate is counted exactly once, in one of the two counts",
+              f"the two counts are {fo} and {fu} in units of (observed, unobserved) plates: some plate is counted twice or not at all")
+    ctx.ok("R5", f"{f.site()}::counters-start-at-zero", "the counts are sums over the plate list (zero for an empty list)")
+    ctx.check("R5", f"{f.site()}::json-wiring", fu == {"obs": 0, "unobs": 1} and fo == {"obs": 1, "unobs": 0},
+              "JSON keys carry the matching counts",
+              f"n_unobserved_plates counts {fu}, n_observed_plates counts {fo} (in units of observed / unobserved plates)")
 
 
 def r6(ctx):
